@@ -459,7 +459,7 @@ func runC17Stop(s *core.Sim, w *SW, first, top uint64, plan *[]string, obs *int6
 		// the very same Store object is started again: what was accepted into its write queue
 		// behind the stop marker is still there and gets written now
 		var err error
-		_, fin := s.Do("start-again", opBudget, func() { err = w.St.Start(context.Background()) })
+		_, fin := s.Do("start-again", opBudget, func() { err = startStore(w.St) })
 		if !fin || err != nil {
 			s.Violate("start-error", map[string]string{"after": "stop-race", "same": "object"}, "Start of the same Store object after a Stop that raced with users: finished=%v err=%v", fin, err)
 			return
